@@ -27,6 +27,14 @@ theorem sameText_eq {m : Mode} (h : m.nocase = false) (t s : Str) : sameText m t
     | nil => simp [sameText]
     | cons c s => simp [sameText, h, chEq_false_iff, ih]
 
+theorem sameText_length {m : Mode} : ∀ {t s : Str}, sameText m t s → t.length = s.length
+  | [], [], _ => rfl
+  | [], _ :: _, h => by simp [sameText] at h
+  | _ :: _, [], h => by simp [sameText] at h
+  | _ :: t, _ :: s, h => by
+    simp only [sameText] at h
+    simp [sameText_length h.2]
+
 theorem GDen_litSeq (m : Mode) (s : Str) : ∀ (b : Bool) (t : Str),
     GDen m (litSeq s) b t ↔ sameText m t s := by
   induction s with
@@ -187,5 +195,375 @@ theorem parseSeq_quoteMeta (m : Mode) (s : Str) :
         simp only [quoteMeta, hc, if_false, Bool.false_eq_true, parseSeq_cons, litSeq, h4, h2, h1, h3,
           false_and, hgrp]
         rw [ih f c hf' hext']; rfl
+
+/-! ### Patterns without metacharacters -/
+
+theorem cut2_spec (a b : Rune) (s name after : Str) (h : cut2 a b s = some (name, after)) :
+    s = name ++ a :: b :: after := by
+  induction s generalizing name with
+  | nil => simp [cut2] at h
+  | cons x s ih =>
+    cases s with
+    | nil => simp [cut2] at h
+    | cons y s' =>
+      simp only [cut2] at h
+      split at h
+      · rename_i hxy
+        obtain ⟨rfl, rfl⟩ := hxy
+        simp at h; obtain ⟨rfl, rfl⟩ := h
+        rfl
+      · cases hc : cut2 a b (y :: s') with
+        | none => simp [hc] at h
+        | some p =>
+          obtain ⟨n, r⟩ := p
+          simp [hc] at h
+          obtain ⟨rfl, rfl⟩ := h
+          rw [ih n hc]; rfl
+
+/-- Once a `[` has been seen, a `]` not directly preceded by a backslash is a metacharacter. -/
+theorem hasMetaAux_close (pre post : Str) (x : Rune) (hx : x ≠ cBS) :
+    hasMetaAux true (pre ++ x :: cRB :: post) = true := by
+  have base : ∀ post, hasMetaAux true (cRB :: post) = true := by
+    intro post
+    rw [hasMetaAux_cons]
+    have h1 : cRB ≠ cBS := by decide
+    have h2 : ¬ (cRB = cStar ∨ cRB = cQuest) := by decide
+    have h3 : cRB ≠ cLB := by decide
+    simp [h1, h2, h3]
+  -- strong induction on the length of `pre`: a backslash skips one character
+  have main : ∀ n (pre : Str), pre.length ≤ n → hasMetaAux true (pre ++ x :: cRB :: post) = true := by
+    intro n
+    induction n with
+    | zero =>
+      intro pre hp
+      have : pre = [] := List.length_eq_zero_iff.mp (Nat.le_zero.mp hp)
+      subst this
+      simp only [List.nil_append]
+      rw [hasMetaAux_cons]
+      simp only [hx, if_false]
+      split
+      · rfl
+      · split
+        · exact base post
+        · split
+          · rfl
+          · exact base post
+    | succ n ih =>
+      intro pre hp
+      cases pre with
+      | nil => exact ih [] (Nat.zero_le _)
+      | cons a pre' =>
+        simp only [List.cons_append]
+        rw [hasMetaAux_cons]
+        have hp' : pre'.length ≤ n := by simp at hp; omega
+        split
+        · -- a backslash: skips the next character
+          cases pre' with
+          | nil => simp only [List.nil_append]; exact base post
+          | cons b pre'' =>
+            simp only [List.cons_append]
+            exact ih pre'' (by simp at hp'; omega)
+        · split
+          · rfl
+          · split
+            · exact ih pre' hp'
+            · split
+              · rfl
+              · exact ih pre' hp'
+  exact main pre.length pre (Nat.le_refl _)
+
+theorem scanItems_cons (fn : Bool) (fuel : Nat) (first : Bool) (st : BSt) (c : Rune) (rest : Str) :
+    scanItems fn (fuel + 1) first st (c :: rest) =
+    if c = cRB ∧ !first then (st, some rest)
+    else
+      match (if c = cLB then scanClass rest else none) with
+      | some (n, .ok k) =>
+        scanItems fn fuel false
+          { st with items := st.items ++ [.cls k], slash := st.slash || (fn && (rest.take n).contains cSlash) }
+          (rest.drop n)
+      | some (n, .error e) =>
+        let st1 := st.addErr (.cls e) true
+        scanItems fn fuel false
+          { st1 with slash := st1.slash || (fn && (rest.take n).contains cSlash) } (rest.drop n)
+      | none =>
+        match elemChar (c :: rest) with
+        | none => (st, none)
+        | some (lo, _, r1) =>
+          let sl1 := fn && lo == cSlash
+          match r1 with
+          | d :: r2 =>
+            if d = cDash ∧ r2.head? ≠ some cRB then
+              match elemChar r2 with
+              | none => (st, none)
+              | some (hi, _, r3) =>
+                let st1 := { st with items := st.items ++ [.range lo hi],
+                                     slash := st.slash || sl1 || (fn && hi == cSlash) }
+                scanItems fn fuel false
+                  (if hi < lo then st1.addErr (.badRange lo hi) false else st1) r3
+            else scanItems fn fuel false { st with items := st.items ++ [.ch lo], slash := st.slash || sl1 } r1
+          | [] => (st, none) := by
+  conv => lhs; rw [scanItems.eq_def]
+  all_goals rfl
+
+/-- Consequences of "no metacharacter from here on" for one leading character. -/
+theorem noMeta_cons {c : Rune} {rest : Str} (h : hasMetaAux true (c :: rest) = false) (hc : c ≠ cBS) :
+    c ≠ cRB ∧ c ≠ cStar ∧ c ≠ cQuest ∧ hasMetaAux true rest = false := by
+  rw [hasMetaAux_cons] at h
+  simp only [hc, if_false] at h
+  by_cases h1 : c = cStar ∨ c = cQuest
+  · simp [h1] at h
+  · simp only [h1, if_false] at h
+    have h1' := not_or.mp h1
+    by_cases h2 : c = cLB
+    · simp only [h2, if_true] at h
+      subst h2
+      exact ⟨by decide, h1'.1, h1'.2, h⟩
+    · simp only [h2, if_false] at h
+      by_cases h3 : c = cRB
+      · simp [h3] at h
+      · simp only [h3, if_false] at h
+        exact ⟨h3, h1'.1, h1'.2, h⟩
+
+theorem noMeta_elemChar {s : Str} {lo : Rune} {esc : Bool} {r1 : Str}
+    (h : hasMetaAux true s = false) (he : elemChar s = some (lo, esc, r1)) :
+    hasMetaAux true r1 = false := by
+  cases s with
+  | nil => simp [elemChar] at he
+  | cons c rest =>
+    simp only [elemChar] at he
+    by_cases hc : c = cBS
+    · simp only [hc, if_true] at he
+      cases rest with
+      | nil => simp at he
+      | cons d rest' =>
+        simp at he
+        obtain ⟨_, _, rfl⟩ := he
+        rw [hasMetaAux_cons] at h
+        simpa [hc] using h
+    · simp only [hc, if_false] at he
+      simp at he
+      obtain ⟨_, _, rfl⟩ := he
+      exact (noMeta_cons h hc).2.2.2
+
+/-- Without a later unescaped `]` a bracket expression cannot close. -/
+theorem scanItems_noMeta (fn : Bool) : ∀ (fuel : Nat) (first : Bool) (st : BSt) (s : Str),
+    hasMetaAux true s = false → (scanItems fn fuel first st s).2 = none := by
+  intro fuel
+  induction fuel with
+  | zero => intro first st s _; rw [scanItems.eq_def]
+  | succ f ih =>
+    intro first st s h
+    cases s with
+    | nil => rw [scanItems.eq_def]
+    | cons c rest =>
+      rw [scanItems_cons]
+      have hnrb : c ≠ cRB := by
+        intro hc
+        subst hc
+        rw [hasMetaAux_cons] at h
+        have h1 : cRB ≠ cBS := by decide
+        have h2 : ¬ (cRB = cStar ∨ cRB = cQuest) := by decide
+        have h3 : cRB ≠ cLB := by decide
+        simp [h1, h2, h3] at h
+      simp only [hnrb, false_and, if_false]
+      -- a class-like element would contain `X]`
+      have hclass : ∀ n r, (if c = cLB then scanClass rest else none) = some (n, r) →
+          hasMetaAux true (rest.drop n) = false := by
+        intro n r hsc
+        by_cases hlb : c = cLB
+        · simp only [hlb, if_true] at hsc
+          subst hlb
+          have hrest : hasMetaAux true rest = false := (noMeta_cons h (by decide)).2.2.2
+          cases rest with
+          | nil => simp [scanClass] at hsc
+          | cons x s1 =>
+            simp only [scanClass] at hsc
+            by_cases hx : x = cColon
+            · simp only [hx, if_true] at hsc
+              cases hcut : cut2 cColon cRB s1 with
+              | none =>
+                simp [hcut] at hsc
+                obtain ⟨rfl, _⟩ := hsc
+                simpa using hrest
+              | some p =>
+                obtain ⟨name, after⟩ := p
+                have := cut2_spec _ _ _ _ _ hcut
+                subst this
+                have := hasMetaAux_close (x :: name) after cColon (by decide)
+                simp only [List.cons_append] at this
+                rw [this] at hrest; cases hrest
+            · simp only [hx, if_false] at hsc
+              by_cases hx2 : x = cDot ∨ x = cEq
+              · simp only [hx2, if_true] at hsc
+                have hxbs : x ≠ cBS := by
+                  rcases hx2 with rfl | rfl <;> decide
+                cases hcut : cut2 x cRB s1 with
+                | none =>
+                  simp [hcut] at hsc
+                  obtain ⟨rfl, _⟩ := hsc
+                  simpa using hrest
+                | some p =>
+                  obtain ⟨name, after⟩ := p
+                  have := cut2_spec _ _ _ _ _ hcut
+                  subst this
+                  have := hasMetaAux_close (x :: name) after x hxbs
+                  simp only [List.cons_append] at this
+                  rw [this] at hrest; cases hrest
+              · simp [hx2] at hsc
+        · simp [hlb] at hsc
+      cases hsc : (if c = cLB then scanClass rest else none) with
+      | some p =>
+        obtain ⟨n, r⟩ := p
+        have hd := hclass n r hsc
+        cases r with
+        | ok k => exact ih _ _ _ hd
+        | error e => exact ih _ _ _ hd
+      | none =>
+        simp only []
+        cases he : elemChar (c :: rest) with
+        | none => rfl
+        | some q =>
+          obtain ⟨lo, esc, r1⟩ := q
+          have h1 := noMeta_elemChar h he
+          simp only []
+          cases r1 with
+          | nil => rfl
+          | cons d r2 =>
+            simp only []
+            split
+            · rename_i hd
+              have hd1 : d = cDash := hd.1
+              subst hd1
+              have h2 : hasMetaAux true r2 = false := (noMeta_cons h1 (by decide)).2.2.2
+              cases he2 : elemChar r2 with
+              | none => rfl
+              | some q2 =>
+                obtain ⟨hi, esc2, r3⟩ := q2
+                exact ih _ _ _ (noMeta_elemChar h2 he2)
+            · exact ih _ _ _ h1
+
+theorem scanBracket_noMeta (fn : Bool) (s : Str) (h : hasMetaAux true s = false) :
+    ∀ neg items rest, scanBracket fn s ≠ .ok neg items rest := by
+  intro neg items rest
+  unfold scanBracket
+  have hbody : hasMetaAux true (if (s.head? = some cBang ∨ s.head? = some cCaret) then s.tail else s) = false := by
+    split
+    · rename_i hh
+      cases s with
+      | nil => simpa using h
+      | cons c r =>
+        simp only [List.head?_cons, Option.some.injEq] at hh
+        have hc : c ≠ cBS := by rcases hh with rfl | rfl <;> decide
+        exact (noMeta_cons h hc).2.2.2
+    · exact h
+  simp only []
+  have h2 := scanItems_noMeta fn
+    ((if (s.head? = some cBang ∨ s.head? = some cCaret) then s.tail else s).length + 1) true
+    { items := [], slash := false, rangeErr := none, classErr := none } _ hbody
+  generalize scanItems fn _ true _ _ = r at h2 ⊢
+  obtain ⟨st, o⟩ := r
+  simp only at h2
+  subst h2
+  simp only []
+  split <;> simp
+
+theorem unescape_cons_ne {c : Rune} (rest : Str) (h : c ≠ cBS) :
+    unescape (c :: rest) = c :: unescape rest := by
+  conv => lhs; rw [unescape.eq_def]
+  simp [h]
+
+theorem unescape_bs_cons (d : Rune) (rest : Str) : unescape (cBS :: d :: rest) = d :: unescape rest := by
+  conv => lhs; rw [unescape.eq_def]
+  simp
+
+theorem hasExtGroup_cons_ne {c : Rune} (rest : Str) (h : c ≠ cBS) :
+    hasExtGroup (c :: rest) = ((isExtOp c && rest.head? == some cLP) || hasExtGroup rest) := by
+  conv => lhs; rw [hasExtGroup.eq_def]
+  simp [h]
+
+theorem hasExtGroup_bs_cons (d : Rune) (rest : Str) : hasExtGroup (cBS :: d :: rest) = hasExtGroup rest := by
+  conv => lhs; rw [hasExtGroup.eq_def]
+  simp
+
+/-- A pattern without metacharacters (and without pattern-lists) parses to its unescaped text, or
+    is malformed. -/
+theorem parseSeq_noMeta (m : Mode) : ∀ (fuel : Nat) (ob : Bool) (prev : Rune) (p : Str),
+    p.length < fuel → hasMetaAux ob p = false → (m.ext = false ∨ hasExtGroup p = false) →
+    parseSeq m fuel prev p = .ok (litSeq (unescape p)) ∨ ∃ e, parseSeq m fuel prev p = .error e := by
+  intro fuel
+  induction fuel with
+  | zero => intro ob prev p hf; simp at hf
+  | succ f ih =>
+    intro ob prev p hf hm hext
+    cases p with
+    | nil => left; simp [parseSeq_nil, unescape, litSeq]
+    | cons c rest =>
+      have hf' : rest.length < f := by simp at hf; omega
+      rw [parseSeq_cons]
+      by_cases hbs : c = cBS
+      · subst hbs
+        simp only [if_true]
+        cases rest with
+        | nil => right; exact ⟨_, rfl⟩
+        | cons d rest' =>
+          simp only []
+          have hm' : hasMetaAux ob rest' = false := by
+            rw [hasMetaAux_cons] at hm; simpa using hm
+          have hext' : m.ext = false ∨ hasExtGroup rest' = false := by
+            cases hext with
+            | inl h => exact .inl h
+            | inr h => right; rw [hasExtGroup_bs_cons] at h; exact h
+          have hf'' : rest'.length < f := by simp at hf'; omega
+          rcases ih ob d rest' hf'' hm' hext' with h | ⟨e, h⟩
+          · left; rw [h, unescape_bs_cons]; rfl
+          · right; exact ⟨e, by rw [h]; rfl⟩
+      · simp only [hbs, if_false]
+        rw [hasMetaAux_cons] at hm
+        simp only [hbs, if_false] at hm
+        have hnq : ¬ (c = cStar ∨ c = cQuest) := by
+          intro h; simp [h] at hm
+        simp only [hnq, if_false] at hm
+        have hnq' := not_or.mp hnq
+        simp only [hnq'.1, hnq'.2, false_and, if_false]
+        have hgrp : (m.ext && isExtOp c && (rest.head? == some cLP)) = false := by
+          cases hext with
+          | inl h => simp [h]
+          | inr h =>
+            rw [hasExtGroup_cons_ne rest hbs] at h
+            simp only [Bool.or_eq_false_iff] at h
+            cases hm2 : m.ext <;> simp [h.1]
+        have hext' : m.ext = false ∨ hasExtGroup rest = false := by
+          cases hext with
+          | inl h => exact .inl h
+          | inr h =>
+            right
+            rw [hasExtGroup_cons_ne rest hbs] at h
+            simp only [Bool.or_eq_false_iff] at h
+            exact h.2
+        have fin : ∀ ob', hasMetaAux ob' rest = false →
+            (andThenG (.lit c) (parseSeq m f c rest) = .ok (litSeq (unescape (c :: rest))) ∨
+              ∃ e, andThenG (.lit c) (parseSeq m f c rest) = .error e) := by
+          intro ob' hm'
+          rcases ih ob' c rest hf' hm' hext' with h | ⟨e, h⟩
+          · left; rw [h, unescape_cons_ne rest hbs]; rfl
+          · right; exact ⟨e, by rw [h]; rfl⟩
+        by_cases hlb : c = cLB
+        · subst hlb
+          simp only [if_true] at hm ⊢
+          cases hsb : scanBracket m.filenames rest with
+          | notBracket => exact fin true hm
+          | malformed e => right; exact ⟨e, rfl⟩
+          | ok neg items rest' => exact absurd hsb (scanBracket_noMeta _ _ hm _ _ _)
+        · simp only [hlb, if_false, hgrp, Bool.false_eq_true] at hm ⊢
+          by_cases hrb : c = cRB
+          · simp only [hrb, if_true] at hm
+            cases ob with
+            | true => simp at hm
+            | false =>
+              simp only [Bool.false_eq_true, if_false] at hm
+              rw [← hrb] at *
+              exact fin false hm
+          · simp only [hrb, if_false] at hm
+            exact fin ob hm
 
 end ShVerif.L3
